@@ -16,7 +16,7 @@ def handleQuery (toks : List String) : String :=
   | [hex] =>
     match bytesOfHex hex with
     | some s =>
-      match classify (fun v => v.length ≤ 300) s with
+      match classify floatFiniteDec s with
       | .str d => "str " ++ hexOfBytes d
       | .int => "int" | .float => "float" | .ctrue => "true" | .cfalse => "false" | .cnull => "null"
       | .bytes64 => "bytes" | .lit => "lit" | .err => "err"
